@@ -72,7 +72,7 @@ class HandAug(nn.Module):
 
 
 def cases(tier, seed):
-    reps = 1 if tier == "quick" else 10
+    reps = 1 if tier == "quick" else 40
     out = []
     for ci, cell in enumerate(zoo.matrix()):
         for fam in ("exact", "generic"):
